@@ -242,6 +242,7 @@ func runC11(w *World, c *Check) {
 	c.Rule("C11.shared-write", "a store through memory reachable from the *Client receiver, in a context rooted at an exported Client method, is under a mutex of the same or an enclosing object", 1)
 	c.Rule("C11.readonly", "Config.GetKDCs, GetKpasswdServers, ResolveRealm and JSON do not write through memory aliased from the configuration", 4)
 	c.Rule("C11.permutation", "randServOrder hands out the configured servers once each: every step draws among those that remain and removes exactly the drawn one", 5)
+	c.Rule("C11.key-bytes", "the bytes of an EncryptionKey read from a structure (cache entry, session, credentials, ticket) are never written in place: holders of a returned (ticket, key) pair share that backing array", 6)
 	c.Rule("C11.lockorder", "the lock-order graph of the client's mutexes is acyclic with no same-object re-entry; no KDC/network exchange is reachable while a lock is held", 2)
 
 	cl := w.SSAPkgs["client"]
@@ -520,4 +521,83 @@ func runC11(w *World, c *Check) {
 			"writes through memory aliased from the configuration: "+strings.Join(ws, " | "))
 	}
 	ruleDrawRemove(w, c, "C11.permutation")
+	ruleKeyBytesImmutable(w, c, "C11.key-bytes")
+}
+
+// ruleKeyBytesImmutable: GetServiceTicket/GetCachedTicket hand out EncryptionKey values whose
+// KeyValue slice shares its backing array with the cache entry (and sessions, credentials, decoded
+// messages hold keys the same way). Writing an element of a KeyValue that was loaded from such a
+// structure — zeroing on Destroy, in-place transformation — changes pairs other goroutines already
+// hold. Every function that loads a KeyValue field is an instance; an element store, copy() or
+// clear() whose destination is that loaded slice is a violation.
+func ruleKeyBytesImmutable(w *World, c *Check, rule string) {
+	isKeyValueLoad := func(v ssa.Value) bool {
+		for i := 0; i < 4; i++ {
+			switch x := v.(type) {
+			case *ssa.Slice:
+				v = x.X
+				continue
+			case *ssa.Phi:
+				for _, e := range x.Edges {
+					if e != v {
+						v = e
+						break
+					}
+				}
+				continue
+			}
+			break
+		}
+		var fld *types.Var
+		switch x := v.(type) {
+		case *ssa.UnOp:
+			if fa, ok := x.X.(*ssa.FieldAddr); ok {
+				if st, ok := fa.X.Type().Underlying().(*types.Pointer).Elem().Underlying().(*types.Struct); ok {
+					fld = st.Field(fa.Field)
+				}
+			}
+		case *ssa.Field:
+			if st, ok := x.X.Type().Underlying().(*types.Struct); ok {
+				fld = st.Field(x.Field)
+			}
+		}
+		return fld != nil && fld.Name() == "KeyValue"
+	}
+	for _, fn := range w.ModuleFuncs() {
+		k := FuncKey(fn)
+		if strings.HasPrefix(k, "examples") || strings.HasPrefix(k, "test") || strings.HasPrefix(k, "crypto") {
+			continue
+		}
+		loads := 0
+		var bad []string
+		var pos ssa.Instruction
+		for _, b := range fn.Blocks {
+			for _, in := range b.Instrs {
+				switch x := in.(type) {
+				case *ssa.UnOp, *ssa.Field:
+					if isKeyValueLoad(x.(ssa.Value)) {
+						loads++
+					}
+				case *ssa.Store:
+					if ia, ok := x.Addr.(*ssa.IndexAddr); ok && isKeyValueLoad(ia.X) {
+						bad = append(bad, "element store")
+						pos = in
+					}
+				case *ssa.Call:
+					if bi, ok := x.Call.Value.(*ssa.Builtin); ok && (bi.Name() == "copy" || bi.Name() == "clear") && len(x.Call.Args) > 0 && isKeyValueLoad(x.Call.Args[0]) {
+						bad = append(bad, bi.Name()+"()")
+						pos = in
+					}
+				}
+			}
+		}
+		if loads == 0 {
+			continue
+		}
+		if len(bad) > 0 {
+			c.Fail(rule, k, "key-bytes", w.Pos(InstrPos(pos)), "the bytes of a key read from a structure are not modified in place", strings.Join(bad, ", ")+" into a KeyValue slice loaded from a structure: (ticket, key) pairs already handed out share these bytes")
+		} else {
+			c.Ok(rule, k, "key-bytes", w.Pos(fn.Pos()), "reads key bytes without writing them in place")
+		}
+	}
 }
